@@ -70,11 +70,15 @@ def real_value(kind):
 BNAMES = ["b", "tolerance", "drop", "method"]     # names of the second dimension (three are option names of Dataset.sel)
 
 
-def build(env, n1, n2, nvars, idim, kinds, transposed=False, bname="b"):
+def build(env, n1, n2, nvars, idim, kinds, transposed=False, bname="b", zvar=False):
     """dataset over a (n1) x b (n2, 0 = no such dim) with x(a,b[,t]) and optionally y(a,b)"""
     la, lb = A[:n1], B[:n2]
     it = iter(kinds)
     cellsx, cellsy = {}, {}
+    cellsz = {}
+    if zvar:
+        for a in la:
+            cellsz[a] = next(it)           # a variable z(a) that spans only ONE of the parameter dimensions
     for a in la:
         for b in (lb or [None]):
             for t in (T if idim else [None]):
@@ -102,6 +106,14 @@ def build(env, n1, n2, nvars, idim, kinds, transposed=False, bname="b"):
     dv = {"x": (dims + (("time",) if idim else ()), nest_x())}
     if nvars == 2:
         dv["y"] = (dims, nest_y())
+    if zvar:
+        dv["z"] = (("a",), [val(cellsz[a]) for a in la])
+        for (a, b_) in list(cellsy) if nvars == 2 else []:
+            pass
+        # z counts for every location (a, .): fold it into the per-location bookkeeping of y
+        for a in la:
+            for b_ in (lb or [None]):
+                cellsy[("z", a, b_)] = cellsz[a]
     if transposed and lb and not idim and nvars == 1:
         # the variable is stored as (b, a) although the coordinates are declared a, b: then Dataset.dims is
         # (b, a) while the coordinates / indexes keep the order (a, b)
@@ -127,6 +139,8 @@ def loc_missing(method, cellsx, cellsy, a, b, idim, nvars, t=None):
         ks.append(cellsx[(a, b, t)])
         if nvars == 2:
             ks.append(cellsy[(a, b)])     # y has no t dimension: the whole (a, b) cell counts
+    if ("z", a, b) in cellsy:
+        ks.append(cellsy[("z", a, b)])    # z(a) holds for every b
     # one conjunction term (no short-circuit forks): decided by the solver in a single query
     out = True
     for k in ks:
@@ -136,7 +150,7 @@ def loc_missing(method, cellsx, cellsy, a, b, idim, nvars, t=None):
 
 
 def body_find(E, n1, n2, nvars, idim, meth, ign, k0, k1, k2, k3, k4, k5, k6, k7, k8, k9, k10, k11,
-              k12, k13, k14, k15, k16, k17, transposed=False, bn=0):
+              k12, k13, k14, k15, k16, k17, transposed=False, bn=0, zvar=False):
     n1 = concretize(n1, 1, 3)
     n2 = concretize(n2, 0, 2)
     nvars = concretize(nvars, 1, 2)
@@ -149,7 +163,7 @@ def body_find(E, n1, n2, nvars, idim, meth, ign, k0, k1, k2, k3, k4, k5, k6, k7,
             env.swap_module("numpy", env.np)
         transposed = cbool(transposed) and n2 >= 1 and not idim and nvars == 1
         bname = BNAMES[concretize(bn, 0, 3)]
-        ds, cx, cy, la, lb = build(env, n1, n2, nvars, idim, kinds, transposed, bname)
+        ds, cx, cy, la, lb = build(env, n1, n2, nvars, idim, kinds, transposed, bname, cbool(zvar))
         if not idim:
             ignore = None
         else:
@@ -281,6 +295,12 @@ CONDS = (
                             **{"k%d" % i: 0 for i in range(4, 18)}), timeout=300,
                  bounds="a (1-2) x second dimension (2) named 'tolerance', 'drop' or 'method' (option names of "
                         "Dataset.sel): dimension names are data, every null pattern")]
+    + [make_cond(_G, "find_subdims", body_find, "n1:int n2:int meth:int " + " ".join("k%d:int" % i for i in range(6)),
+                 ["1 <= n1 <= 2 and 1 <= n2 <= 2 and 0 <= meth <= 1", " and ".join("0 <= k%d <= 3" % i for i in range(6))],
+                 fixed=dict(nvars=1, idim=False, ign=0, transposed=False, bn=0, zvar=True,
+                            **{"k%d" % i: 0 for i in range(6, 18)}), timeout=300,
+                 bounds="x(a, b) together with a variable z(a) spanning only one of the parameter dimensions, every "
+                        "null pattern: a location is missing only if x there AND z at its a are null")]
     + split_conds(_G, "find_ignored", body_find, _SIGF, ["1 <= n1 <= 3 and 0 <= n2 <= 2 and 1 <= ign <= 2", _KR,
                                                          "not transposed"],
                   "meth", [0, 1], fixed=dict(nvars=1, idim=True), timeout=400,
